@@ -821,6 +821,12 @@ func (vfs *OrefaFS) Rename(oldname, newname string) error {
 		return &os.LinkError{Op: op, Old: oldname, New: newname, Err: vfs.err.NoSuchFile}
 	}
 
+	if nChildOk && nChild == oChild {
+		// The old and the new name are two hard links of the same file :
+		// rename(2) does nothing and reports success.
+		return nil
+	}
+
 	nParent.mu.RLock()
 	nParentIsDir := nParent.mode.IsDir()
 	nParent.mu.RUnlock()
